@@ -246,9 +246,9 @@ func (pi *partIter) findBlock() bool {
 				return false
 			}
 			if shouldSkip {
-				if !pi.nextSeriesID() {
-					return false
-				}
+				// Only this block is pruned; later blocks of the same series have
+				// their own filters and may still match.
+				bhs = bhs[1:]
 				continue
 			}
 		}
